@@ -75,31 +75,40 @@ fn k_c05_crc_known_answer() {
     kani::cover!(true);
 }
 
-// oblig: C05.a.small_blocks_checked kind=complete timeout=400
-// blocks holding 1, 2 or 3 data bytes are checked like any other: the right CRC is accepted, any single wrong CRC byte is
-// rejected (concrete data, symbolic damage position/mask)
-#[kani::proof]
-#[kani::unwind(10)]
-#[kani::stub(std::backtrace::Backtrace::capture, bt_stub)]
-fn k_c05_small_blocks_checked() {
-    let n: usize = kani::any();
-    kani::assume(n >= 1 && n <= 3);
-    let data = [0x61u8, 0x62, 0x63];
-    let mut block = [0u8; 7];
-    let mut i = 0;
-    while i < n {
-        block[i] = data[i];
-        i += 1;
-    }
-    let crc = crc32c_bitwise(&data[..n]).to_be_bytes();
-    block[n] = crc[0];
-    block[n + 1] = crc[1];
-    block[n + 2] = crc[2];
-    block[n + 3] = crc[3];
-    assert!(assert_slice_crc(&block[..n + 4]).is_ok());
-    let k: usize = kani::any();
-    kani::assume(k < 4);
-    block[n + k] ^= 0x10;
-    assert!(assert_slice_crc(&block[..n + 4]).is_err());
-    kani::cover!(n == 3 && k == 3);
+macro_rules! k_small_block {
+    ($name:ident, $n:expr) => {
+        // oblig: C05.a.small_blocks_checked kind=complete timeout=300
+        // a block holding $n data byte(s) is checked like any other: the right CRC is accepted and each single damaged CRC
+        // byte is rejected with an error (all values concrete: this pins the behaviour on tiny blocks, including the error path)
+        #[kani::proof]
+        #[kani::unwind(12)]
+        #[kani::stub(std::backtrace::Backtrace::capture, bt_stub)]
+        fn $name() {
+            let data = [0x61u8, 0x62, 0x63];
+            let crc = crc32c_bitwise(&data[..$n]).to_be_bytes();
+            let mut block = [0u8; $n + 4];
+            let mut i = 0;
+            while i < $n {
+                block[i] = data[i];
+                i += 1;
+            }
+            let mut j = 0;
+            while j < 4 {
+                block[$n + j] = crc[j];
+                j += 1;
+            }
+            assert!(assert_slice_crc(&block).is_ok());
+            let mut k = 0;
+            while k < 4 {
+                let mut damaged = block;
+                damaged[$n + k] ^= 0x10;
+                assert!(assert_slice_crc(&damaged).is_err());
+                k += 1;
+            }
+            kani::cover!(true);
+        }
+    };
 }
+k_small_block!(k_c05_small_block_1, 1);
+k_small_block!(k_c05_small_block_2, 2);
+k_small_block!(k_c05_small_block_3, 3);
